@@ -25,7 +25,7 @@ RULE = (
     "still stored after cleaning; a quarter arrive in two deliveries for the "
     "same trace ids (sub trees held back, selection after each delivery "
     "against one sqlite file); one fixed large store (1005 traces, root "
-    "page of 1000). Non-trivial: >=2 traces of equal form under one name "
+    "page of 1000). span ids are dot-separated paths or, in a third of the drawn cases, joined by punctuation (comma, quotes, %, space). Non-trivial: >=2 traces of equal form under one name "
     "and >=2 forms overall. Distinct by the serialised case.")
 ASSUMPTIONS = [
     "canonical form = (type, sorted tuple of child forms)",
@@ -40,11 +40,11 @@ def canon(tree):
     return (tree[0], tuple(sorted(canon(c) for c in tree[1])))
 
 
-def flatten(tree, prefix, parent, out, name, job, t=[0]):
+def flatten(tree, prefix, parent, out, name, job, sep="."):
     sid = prefix
     out.append((sid, parent, tree[0], job, name))
     for k, c in enumerate(tree[1]):
-        flatten(c, f"{prefix}.{k}", sid, out, name, job)
+        flatten(c, f"{prefix}{sep}{k}", sid, out, name, job, sep)
 
 
 def spans_of(case):
@@ -55,7 +55,7 @@ def spans_of(case):
         out = []
         # OTLP/JSON exporters write "" for the parent of a root span
         flatten(tree, f"t{ti}", "" if ti in empties else None, out, name,
-                f"job{ti}")
+                f"job{ti}", case.get("idsep", "."))
         for k, (sid, parent, typ, job, nm) in enumerate(out):
             start = 1000 * (ti + 1) + k
             spans.append((sid, parent, typ, job, nm, start, start + 5))
@@ -235,7 +235,8 @@ def windowed(case):
     spans = []
     for ti, (name, tree) in enumerate(case["traces"]):
         out = []
-        flatten(tree, f"t{ti}", None, out, name, f"job{ti}")
+        flatten(tree, f"t{ti}", None, out, name, f"job{ti}",
+                case.get("idsep", "."))
         tms = w["times"][ti]
         for k, (sid, parent, typ, job, nm) in enumerate(out):
             a, d = tms[k % len(tms)]
@@ -363,6 +364,8 @@ def classify(case):
         classes.append("two_deliveries_same_trace_ids")
     if case.get("empty_root_parent"):
         classes.append("root_with_empty_string_parent")
+    if case.get("idsep"):
+        classes.append("span_ids_with_punctuation")
     return rep and nforms >= 2, classes
 
 
@@ -440,6 +443,9 @@ def case_strategy():
         if draw(st.integers(0, 4)) == 0:
             case["via_otel_to_pv"] = True
             case["pv_batch"] = draw(st.sampled_from([1, 2, 3, 1000]))
+        sep = draw(st.sampled_from([".", ".", ".", ",", " ", "'", "%", '"']))
+        if sep != ".":
+            case["idsep"] = sep     # span ids are arbitrary strings
         if draw(st.integers(0, 3)) == 0:
             case["empty_root_parent"] = sorted(set(draw(st.lists(
                 st.integers(0, len(traces) - 1), min_size=1, max_size=4))))
